@@ -9,6 +9,8 @@ mod c05;
 mod c08;
 mod c09;
 mod c10;
+mod c12;
+mod c13;
 mod c17;
 mod crdt;
 mod gen;
@@ -46,6 +48,8 @@ fn main() {
             "C08" => c08::replay(&case),
             "C09" => c09::replay(&case),
             "C10" => c10::replay(&case),
+            "C12" => c12::replay(&case),
+            "C13" => c13::replay(&case),
             "C17" => c17::replay(&case),
             _ => {
                 eprintln!("no replay for property {prop:?}");
@@ -70,6 +74,8 @@ fn main() {
         "C08" => c08::run(tier),
         "C09" => c09::run(tier),
         "C10" => c10::run(tier),
+        "C12" => c12::run(tier),
+        "C13" => c13::run(tier),
         "C17" => c17::run(tier),
         _ => usage(),
     };
